@@ -101,6 +101,9 @@ M = {
  'm29': (S + 'solver.py', "            self.model.pulp_status = pulp_status\n",
          "            if getattr(self.model, 'pulp_status', None) in (None, '', self.model.OPTIMAL_PULP_STATUS):\n                self.model.pulp_status = pulp_status\n",
          ['C14'], 'the first status that is not Optimal sticks to the object: a later run that fails differently shows the earlier run\'s status (needs two cut-short runs on one object; MC_Runs)'),
+ 'm30': (S + 'lp_solver.py', "        self.model.info_string = self.info_string\n",
+         "        type(self.model).info_string = self.info_string\n        if 'info_string' in self.model.__dict__:\n            del self.model.__dict__['info_string']\n",
+         ['C18'], 'the constraint / optimisation summary is stored on the Model CLASS: after a solve of ANOTHER Solver object of the process this object\'s getters show the other object\'s summary (needs two live objects; MC_Hist CallOther)'),
 }
 del M['m24']
 
